@@ -120,3 +120,16 @@ Fixpoint mentions (l : N) (s : stm) : bool :=
   | SCall b | SBrk b | SCont b => mentions l b
   | _ => false
   end.
+
+(* "every call of b is preceded by a call of a in the same iteration of the root function's loops":
+   [it] is the label of the iteration marker; 0 = no check since the last marker, 1 = checked *)
+Definition guard_step (a b it : N) (q : N) (e : ev) : option N :=
+  if q =? 0 then
+    if is_call e a then Some 1
+    else if is_call e b then None
+    else Some 0
+  else if is_call e it then Some 0 else Some q.
+
+Definition guarded (a b it : N) (t : list ev) : Prop :=
+  forall t1 t2, t = t1 ++ (KCall, b) :: t2 ->
+  exists u v, t1 = u ++ (KCall, a) :: v /\ ~ In (KCall, it) v.
